@@ -37,3 +37,14 @@ claim('C20', 'Coq proof (projection theorems over the generate model; prefix typ
       'JSON-serialised, checked clause by clause against the DAG, compared with the extracted model, and the DAG is snapshotted before and after.',
       'Not modelled: inspect.getsourcelines / code_source links and the uniqueness of the rendered edge id strings (checked by the harness only).',
       design='4 (C20)')
+claim('C13', 'Coq proof (call-discipline invariant of the frame stacks, unwinding lemma for CancelledError, phase invariant of PipelineChart.run, ready-queue consistency; all programs, all schedules) + extracted-model/implementation correspondence with cancellation injected at random steps',
+      'Theorems C13_all_helpers_cancelled, C13_nothing_starts_after_run, C13_cancelled_task_finishes_in_one_step, C13_reachable_stacks_respect_call_discipline, '
+      'C13_ready_tasks_are_queued, C13_cancel_surfaces_as_CancelledError (Properties/C13.v), each for EVERY program (all constructs, arbitrary bodies, collaborator faults, order oracles) '
+      'and EVERY schedule of loop steps, external completions and caller cancellation, of unbounded length: once PipelineChart.run has ended every helper task is finished or has a '
+      'CancelledError pending and is queued; a CancelledError ends any task in one loop step without suspending, starting anything visible or creating a task; after the end of run '
+      'the visible trace never grows again whatever completes late; a cancelled run is runnable until it ends with CancelledError and nothing else. On every run the extracted model is '
+      'compared with the real engine on a virtual event loop under random schedules with the cancellation injected at a random step, the loop is drained afterwards and leftovers / '
+      'post-completion activity / the surfaced exception are checked on the implementation.',
+      'Not exhibited by the model: a thread/process-pool body that is already executing cannot be interrupted (the model treats its completion as a late gate completion, which theorem (2) covers). '
+      'Not proved: the explicit numeric bound on the number of loop steps needed to drain the cancelled helpers (each takes exactly one step by (3) and is queued by (4); the count itself is checked on the implementation).',
+      design='4 (C13)')
